@@ -6,6 +6,8 @@ META = {
   "pthread mutex / condition variable = models/pthread_model.c (POSIX contract: wait = atomic {register as waiter, release the mutex} then "
   "atomic {woken or spurious, re-acquire}; signal wakes exactly one nondeterministically chosen waiter of that condition object; broadcast all; "
   "at most VM_SPURIOUS spurious wake-ups per thread); the model resolves objects by ADDRESS, an unknown address is an assertion failure",
+  "seq_wait_releases_via_api: the blocking point of pthread_cond_wait is emulated sequentially - the model releases the platform mutex, runs a second "
+  "context to completion through the PUBLIC p_mutex_* / p_cond_variable_* API, then re-acquires for the waiter (one preemption, at the blocking point)",
   "completion = transition-time deadlock check (a thread blocks or finishes while a waiter has no pending wake-up and nobody else can run); "
   "spurious wake-ups never count as rescue",
   "'exchanges always complete' for unbounded threads/events follows from the decided wrapper effects (right handle pair, broadcast wakes all, "
@@ -18,7 +20,8 @@ META = {
 MANIFEST = {
  "level_text": "Bounded model checking of the real pcondvariable-posix.c + pmutex-posix.c over a pthread model: sequential queries decide for ALL waiter "
                "sets over 3 threads and two condition objects that broadcast wakes every waiter and signal at least one waiter of exactly that "
-               "object, that wait hands exactly the given (condition, mutex) pair to the platform and returns owning that mutex, and the return-code "
+               "object, that wait hands exactly the given (condition, mutex) pair to the platform and returns owning that mutex, that the release is visible through the PUBLIC API (another thread's "
+               "p_mutex_trylock / p_mutex_lock succeeds while the waiter is blocked and fails again once the wait has returned), and the return-code "
                "mapping; thread queries run a capacity-1 bounded buffer and a broadcast gate under every interleaving with spurious wake-ups and decide "
                "no item lost/duplicated, monitor exclusion after wake-up, and completion (no lost wake-up). The wrappers are thin, so the right "
                "level is 'exact effect on the platform for all argument/waiter configurations' plus a client protocol under all schedules.",
@@ -57,7 +60,11 @@ def gate(nwait, spurious, timeout=1200):
 def queries(tier):
     qs = [seq("seq_effect_signal_broadcast", ["Q_EFFECT", "VM_PT_GHOST"], 4, 1, 2),
           seq("seq_wait_handoff", ["Q_HANDOFF", "VM_PT_GHOST"], 2, 2, 2, spurious=1),
-          seq("seq_return_codes", ["Q_RC", "VM_PT_FAULTS"], 1, 1, 1)]
+          seq("seq_return_codes", ["Q_RC", "VM_PT_FAULTS"], 1, 1, 1),
+          Q("seq_wait_releases_via_api", "harness/C03_release.c", units=UNITS, models=PT, defs=caps(2, nmtx=2, ncv=2),
+            hdefs=["VM_CW_HOOK=other_context", "VM_CW_RELEASE"], includes=REDIR_PT, funcs=FUNCS + ["p_mutex_trylock"], timeout=300,
+            bounds={"contexts": "A (waiter) + B (run to completion at A's blocking point, nested emulation)", "mutexes": 2, "conditions": 2,
+                    "B_entry": "p_mutex_trylock or p_mutex_lock (symbolic)"})]
     if tier == "quick":
         qs += [buffer(1, 1, 1), gate(1, 1), gate(2, 0)]
     else:
